@@ -184,6 +184,36 @@ Section Cfg.
   Qed.
 End Cfg.
 
+(* ---- grant / revoke of the updatable permission ---- *)
+Lemma set_updatable_ok : forall valid upd k v upd', set_updatable valid upd k v = Ok upd' ->
+  valid k = true /\ upd k = negb v /\ upd' k = v /\ forall k', k' <> k -> upd' k' = upd k'.
+Proof.
+  intros valid upd k v upd' H. unfold set_updatable in H.
+  destruct (valid k); cbn [negb] in H; [|discriminate].
+  destruct (Bool.eqb (upd k) v) eqn:E; [discriminate|]. injection H as <-.
+  repeat split.
+  - destruct (upd k), v; cbn in *; try discriminate; reflexivity.
+  - rewrite String.eqb_refl. reflexivity.
+  - intros k' Hne. destruct (String.eqb k' k) eqn:Ek; [apply String.eqb_eq in Ek; contradiction|reflexivity].
+Qed.
+
+Lemma set_updatable_same_rejected : forall valid upd k, set_updatable valid upd k (upd k) = Err E_PRECOND \/ valid k = false.
+Proof.
+  intros valid upd k. unfold set_updatable. destruct (valid k); [left|right; reflexivity].
+  cbn [negb]. rewrite Bool.eqb_reflx. reflexivity.
+Qed.
+
+(* after a successful revocation a config keeper (who is not a keeper) can no longer update that key / flag *)
+Lemma revoked_key_rejected : forall (V : Type) e valid upd upd' (c : @cfg V) k v,
+  set_updatable valid upd k false = Ok upd' ->
+  signed e = true -> is_keeper e = false -> is_config_keeper e = true -> mk_status e = Enabled ->
+  exists code, update_one e true valid upd' c k v = Err code.
+Proof.
+  intros V e valid upd upd' c k v Hset Hs Hnk Hck Hmk.
+  destruct (set_updatable_ok _ _ _ _ _ Hset) as (Hv & _ & Hu & _).
+  destruct (config_keeper_only_updatable e valid upd' c k v Hs Hnk Hck Hmk Hv) as [_ H]. exact (H Hu).
+Qed.
+
 (* ---- the configuration in which the literal property fails: MARKET_KEEPER not enabled ---- *)
 Lemma mk_not_enabled_blocks_config_keeper : forall e valid upd (c : @cfg Z) k v,
   mk_status e <> Enabled -> exists code, update_one e true valid upd c k v = Err code.
